@@ -81,7 +81,34 @@ def run(ctx, F, cg):
     nmut = 0
     wild = False
     used = {}
+    def _deepen(arm):
+        """arm facts with the calls / constructed variants of the state machine's own helpers folded in (two levels):
+        an arm whose body was moved into a helper method is the same arm"""
+        calls, ctors = set(arm["calls"]), set(arm["ctors"])
+        seen_, work_ = set(), [c for c in calls if c.startswith("samyama::raft::state_machine::")]
+        for _ in range(2):
+            nxt = []
+            for hp in work_:
+                if hp in seen_ or hp not in F.fns or hp == r["path"] or hp.startswith(r["path"].rsplit("::{closure", 1)[0] + "::{closure"):
+                    continue
+                seen_.add(hp)
+                hr = F.fns[hp]
+                calls |= set(hr["calls"])
+                hm = F.mir(hp)
+                if hm is not None:
+                    hb = Body(hm, hr)
+                    for i_, j_, pl_, rv_, ln_, ex_ in hb.stmts():
+                        if rv_[0] == "agg" and "::" in rv_[1] and not rv_[1].startswith("closure:"):
+                            ctors.add(rv_[1])
+                nxt.extend(c for c in hr["calls"] if c.startswith("samyama::raft::state_machine::"))
+                nxt.extend(hr.get("closures") or [])
+            work_ = nxt
+        a2 = dict(arm)
+        a2["calls"], a2["ctors"] = sorted(calls), sorted(ctors)
+        return a2
+
     for arm in ms[0]["arms"]:
+        arm = _deepen(arm)
         pt = arm["pat"]
         if pt["k"] in ("wild", "bind"):
             wild = True
